@@ -2,6 +2,7 @@ package keeper
 
 import (
 	"encoding/binary"
+	"sort"
 
 	sdkmath "cosmossdk.io/math"
 	assetstypes "github.com/ExocoreNetwork/exocore/x/assets/types"
@@ -99,7 +100,15 @@ func (k Keeper) GetMultipleAssetsPrices(ctx sdk.Context, assets map[string]inter
 	// ret := make(map[string]types.Price)
 	prices = make(map[string]types.Price)
 	info := ""
+	// the loop reads the store and can end early: it must run in a fixed order, otherwise the gas consumed
+	// before the failing asset, and with it the result of the failing transaction, depends on Go's map
+	// iteration order and differs from node to node
+	assetIDs := make([]string, 0, len(assets))
 	for assetID := range assets {
+		assetIDs = append(assetIDs, assetID)
+	}
+	sort.Strings(assetIDs)
+	for _, assetID := range assetIDs {
 		// for native token exo, we temporarily use default price
 		if assetID == assetstypes.ExocoreAssetID {
 			prices[assetID] = types.Price{
